@@ -15,7 +15,7 @@ RULE = (
 )
 ASSUMPTIONS = ["'y - z ~ x' and 'y + y ~ x' reduce to the single term y by the term algebra and are not treated as multi-term responses"]
 
-RHS = ["x", "0 + x", "x + f", "f:g", "x*f", "1", "x + (1|g)", "(x|g) + f", "0 + f + (0 + x|g)", "scale(x) + (f|g)", "poly(x, 2) + C(kk)"]
+RHS = ["0", "1 - 1", "x", "0 + x", "x + f", "f:g", "x*f", "1", "x + (1|g)", "(x|g) + f", "0 + f + (0 + x|g)", "scale(x) + (f|g)", "poly(x, 2) + C(kk)"]
 NS = [7, 10]
 
 
@@ -53,7 +53,7 @@ RESP += [
     {"text": "prop(s, n)", "kind": "prop", "trials": "n"}, {"text": "p(s, n)", "kind": "prop", "trials": "n"}, {"text": "proportion(s, 9)", "kind": "prop", "trials": 9},
     {"text": "prop(s, 4)", "kind": "prop", "trials": 4},
 ]
-INVALID = ["y + z", "y * z", "y / z", "y:z", "(y|g)", "(1|g)", "offset(y)", "1", "0", "y + (1|g)", "(y + z)", "y:z:x", "y ** 2 + z"]
+INVALID = ["ys[low] + ys[mid]", "ys[low]:ys[mid]", "ys + ys[low]", "ys[low] + ys", "y + z", "y * z", "y / z", "y:z", "(y|g)", "(1|g)", "offset(y)", "1", "0", "y + (1|g)", "(y + z)", "y:z:x", "y ** 2 + z"]
 
 
 def units(tier, seed):
